@@ -3035,7 +3035,16 @@ class DataStoreMgr:
     def apply_delta_batch(self):
         """Apply delta batch to local data-store."""
         data = self.data[self.workflow_id]
-        for key, delta in self.deltas.items():
+        # Apply in the order in which subscribers see the parts of an "all"
+        # delta (the field order of AllDeltas), so that the local store and
+        # its subscribers end up with the same data (e.g. an edge added and
+        # pruned in one batch must be removed from its task proxies' edge
+        # lists after those have been updated, not before).
+        for key in (
+            FAMILIES, FAMILY_PROXIES, JOBS, TASKS, TASK_PROXIES, EDGES,
+            WORKFLOW
+        ):
+            delta = self.deltas[key]
             if delta.ListFields():
                 apply_delta(key, delta, data)
 
